@@ -307,6 +307,18 @@ def utils_case(draw):
     return {"kind": "utils", "s1": s1, "s2": s2, "gate": g, "theta": draw(val), "decimals": draw(st.sampled_from([8, 8, 3]))}
 
 
+def enumerate_cases(tier):
+    """join_spectra over every pair of small frequency sets (each containing 0): sums and absolute differences in both orders."""
+    import itertools
+
+    fr = [1.0, 2.0, 3.0, 5.0, 0.5]
+    sets = [[0.0] + list(c) for k in (0, 1, 2) for c in itertools.combinations(fr, k)]
+    g = {"g": "RX", "w": [0], "p": [{"t": [[0, 1, 1]], "b": 0.0}], "mark": 0}
+    for s1 in sets:
+        for s2 in sets:
+            yield {"kind": "utils", "s1": s1, "s2": s2, "gate": g, "theta": 0.3, "decimals": 8}
+
+
 def strategy(tier):
     return st.one_of(circuit_case(), qnode_case(), qnode_case(), qnode_case(), coeffs_case(), coeffs_qnode_case(), recon_poly_case(), recon_qnode_case(), utils_case())
 
